@@ -285,6 +285,14 @@ def run(ctx):
         break
       linv[k] = name
   ctx.add(long_segment_names=len(long_names))
+  rjobs = [({'kind': k, 'hashed': h, 'names': names}, (ctx.pick(2, 3), 0)) for k in ('whisper', 'ceres') for h in (True, False)
+           for names in (('servers.web01.cpu', 'servers.web02.cpu'), ('a.b;k=v', 'a.b;k=w'))]
+  rexec = 0
+  for (p_, b_), st in zip(rjobs, core.pmap(path_race_job, rjobs, fresh=True)):
+    rexec += st['executions']
+    for key, what, rep in st['violations']:
+      ctx.violation(key, what, {'race': p_, 'choices': rep['choices'], 'kind': p_['kind']})
+  ctx.add(path_race_executions=rexec)
   cres = core.pmap(create_all, [(k, h, ctx.pick(4, 5)) for k in ('whisper', 'ceres') for h in (True, False)])
   created = 0
   for c, e, bad in cres:
@@ -303,10 +311,89 @@ def run(ctx):
     raise core.HarnessError('C14: no potentially escaping name was evaluated')
 
 
+# ---- the mapping is a function also under concurrency -------------------------------------------------------------------
+class PathRace(object):
+  """state.database is used by the writer thread (exists / create / write) and by the reactor thread (the cache query
+  port's get-metadata / set-metadata): two threads ask one database object for the paths of different series, each twice.
+  Every answer must be the path the series has when asked alone (deterministic mapping, distinct names - distinct paths)."""
+  horizon = 3000
+  opcode_funcs = ()
+
+  def __init__(self, p):
+    self.p = p
+
+  def visible(self):
+    lib = os.path.join(env.REPO, 'lib', 'carbon')
+    return {os.path.join(lib, 'database.py'): None}
+
+  def setup(self, s):
+    env.boot(standins=True)
+    data_dir = os.path.join(env.scratch(), 'c14race', 'data')
+    os.makedirs(data_dir, exist_ok=True)
+    kind, hashed = self.p['kind'], self.p['hashed']
+    self.db = [d for k, h, d in make_dbs(data_dir) if k == kind and h == hashed][0]
+    ref = [d for k, h, d in make_dbs(data_dir) if k == kind and h == hashed][0]
+    self.want = {}
+    for name in self.p['names']:
+      self.want[name] = ref.getFilesystemPath(name)
+      ref = [d for k, h, d in make_dbs(data_dir) if k == kind and h == hashed][0]     # a fresh object per name: no history
+    self.answers = []
+    self.exc = []
+    self.sched = s
+    a, b = self.p['names']
+    s.spawn('writer', lambda: self.body(a, b))
+    s.spawn('reactor', lambda: self.body(b, a))
+
+  def teardown(self, s):
+    pass
+
+  def body(self, first, second):
+    for name in (first, first, second):
+      self.sched.point(('op', 'path', name[:8]))
+      try:
+        self.answers.append((name, self.db.getFilesystemPath(name)))
+      except Exception as e:   # noqa
+        self.exc.append(repr(e))
+
+  def outcome(self, s):
+    return (tuple(sorted(self.answers)), tuple(self.exc))
+
+  def obligations(self, s):
+    return {}
+
+  def verdict(self, s):
+    if self.exc:
+      return ('exception:%s' % self.p['kind'], 'getFilesystemPath raised %s' % self.exc[0])
+    for name, got in self.answers:
+      if got != self.want[name]:
+        return ('nondeterministic:%s' % self.p['kind'], '%s: %r was mapped to %r while another thread asked about %r; asked alone it maps to %r' % (
+          self.p['kind'], name, got, [n for n in self.p['names'] if n != name][0], self.want[name]))
+    return None
+
+
+def make_path_race(p):
+  return PathRace(p)
+
+
+def path_race_job(arg):
+  from .. import thrx
+  p, bounds = arg
+  env.boot(standins=True)
+  return thrx.explore(make_path_race, p, bounds, fanout=10 ** 9)
+
+
 def replay(path):
   body = json.load(open(path))
   rep = body['replay']
   env.boot(standins=True)
+  if 'race' in rep:
+    from .. import thrx
+    rep['race']['names'] = tuple(rep['race']['names'])
+    sch, h = thrx.run_one(make_path_race, rep['race'], rep['choices'])
+    v = h.verdict(sch)
+    print('answers:', h.answers)
+    print('oracle:', v or 'holds')
+    return 1 if v else 0
   data_dir = os.path.join(env.scratch(), 'c14', 'outer', 'data')
   os.makedirs(data_dir, exist_ok=True)
   bad = 0
